@@ -72,6 +72,11 @@ class AutoOptimizer(PathOptimizer):
             self._optimizer_hyper_cls = HyperOptimizer
 
     def _get_optimizer_hyper_threadsafe(self):
+        if self._optimizer_hyper_cls is HyperOptimizer:
+            # a plain hyperoptimizer keeps the best tree it has found across
+            # searches, so without caching each contraction needs a new one
+            return HyperOptimizer(minimize=self.minimize, **self.kwargs)
+
         # since the hyperoptimizer is stateful while running,
         # we need to instantiate a separate one for each thread
         tid = threading.get_ident()
